@@ -43,13 +43,17 @@ func TestMain(m *testing.M) {
 		"A real identify service (identify.NewIDService) runs on a fake host with a real pstoremem peerstore and event bus inside a synctest bubble; "+
 			"the harness is the remote peer p on up to four fake connections (own non-loopback /24 each; public, private or unroutable remote address) and plays "+
 			"a generated history of open / push / close (Disconnected delivered at once or later, streams reset or left alive) / sleep / IdentifyWait steps. "+
+			"The schedule of a disconnect relative to a message being handled is owned by the harness: the service sees its host through a view in which every call about a peer "+
+			"(Network().Connectedness, any peerstore method) is a scheduling point, and an armed-close step makes one connection (often the last one) close, with Disconnected delivered at once "+
+			"and given the chance to be handled completely, inside the next address update made with the connected lifetime, right after the k-th Connectedness answer (k<=3) or right after "+
+			"the k-th call of any kind (k<=16) about the peer; the armed connection keeps receiving pushes until then. "+
 			"Messages are structured: 0..3000 protocols, 0..1500 listen addresses of every class (loopback, private, public, dns, relay, unroutable, own / foreign / double /p2p suffix, "+
 			"unparsable), public key of p / of another peer / garbage / empty, signed records of ten kinds (valid, somebody else's, signed by p naming another peer, signed by another peer "+
 			"naming p, wrong domain, wrong payload type, corrupted, garbage, oversized, >500 addresses), every field present, absent or repeated over 1..12 chunks, plus garbage, oversized "+
 			"and truncated chunks; replies may be delayed around the identify timeout, dribbled, stalled, reset, or fail protocol negotiation. "+
 			"Oracle: the reference model is built by construction from the generator (address classes, record validity, key ownership); see the test comments. "+
 			"NON-TRIVIAL = a consumed message carried material of another peer (key, record, /p2p suffix) or exceeded a cap, or a delivery ended at or after the close of its "+
-			"connection, or a connection was closed in the middle of a consumption (scheduling point inside the peerstore). DISTINCT = distinct (step kinds, connection, delays, "+
+			"connection, or an armed close fired (a connection was closed at a harness-chosen call of identify into its host). DISTINCT = distinct (step kinds, connection, delays, "+
 			"message structure) history. FuzzIdentifyStream (seed corpus in the quick tier, coverage-guided campaign in the thorough tier): non-trivial = the bytes were consumed as a message.",
 		"multiaddr parsing is trusted to be injective on the generated templates; address classes are assigned by construction and cross-checked against manet in TestAddressTemplates",
 		"the peerstore is pstoremem (optionally with a key book that trusts its caller, which the KeyBook interface permits, and with a protocol book large enough not to mask identify's own cap)",
@@ -70,8 +74,22 @@ const (
 	stClose
 	stSleep
 	stWait
-	stArmClose // the connection closes in the middle of the next address update made while connected
+	stArmClose // the connection closes at a generated point of identify's next calls into its host (see armPoint)
 )
+
+// armPoint says where, relative to what identify does with the host it was given, an
+// armed connection closes and its Disconnected notification is delivered. The schedule
+// belongs to the harness: a connection may die between any two calls identify makes.
+const (
+	ptConnectedAdd  = iota // in the middle of the next address update made with the connected lifetime
+	ptConnectedness        // right after the k-th answer to "is p connected?" (the answer is stale at once)
+	ptHostCall             // right after the k-th call of any kind about p (Connectedness or a peerstore method)
+)
+
+var pointNames = []string{"inside-connected-address-update", "after-connectedness-answer", "after-host-call"}
+
+// a consumption makes about a dozen calls about p, the handling of a disconnect five
+const maxHostCallK = 16
 
 var stepNames = []string{"open", "push", "close", "sleep", "wait", "close-inside-next-consumption"}
 
@@ -137,6 +155,9 @@ type step struct {
 	// close
 	notifyDelay  time.Duration
 	resetStreams bool
+	// close-inside (armed close)
+	point int
+	k     int
 	// sleep
 	d time.Duration
 }
@@ -187,6 +208,7 @@ func drawScenario(rt *rapid.T) *scenario {
 	n := rapid.IntRange(1, 10).Draw(rt, "nsteps")
 	status := []int{} // 1 open, 2 closed (or closing at an instant the generator does not know)
 	armed := false
+	armedConn := -1 // armed and, as far as the generator knows, still open: it may carry further pushes
 	pushes := map[int]int{}
 	src := 0
 	for i := 0; i < n; i++ {
@@ -201,6 +223,8 @@ func drawScenario(rt *rapid.T) *scenario {
 		if i > 0 {
 			if len(open) > 0 {
 				choices = append(choices, stPush, stPush, stClose, stPush, stPush, stClose)
+			} else if armedConn >= 0 {
+				choices = append(choices, stPush, stPush)
 			}
 			choices = append(choices, stSleep, stSleep)
 		}
@@ -215,6 +239,9 @@ func drawScenario(rt *rapid.T) *scenario {
 		}
 		if len(open) > 0 && !armed {
 			choices = append(choices, stArmClose)
+			if i > 0 {
+				choices = append(choices, stArmClose)
+			}
 		}
 		if len(choices) == 0 {
 			break
@@ -236,7 +263,12 @@ func drawScenario(rt *rapid.T) *scenario {
 			st.dl = drawDelivery(rt, sc.w, T, src, false, label)
 			src++
 		case stPush:
-			c := open[rapid.IntRange(0, len(open)-1).Draw(rt, label+"-conn")]
+			// the armed connection is open until its close fires; the runner skips the push if it has fired
+			cands := open
+			if armedConn >= 0 {
+				cands = append(append([]int(nil), open...), armedConn)
+			}
+			c := cands[rapid.IntRange(0, len(cands)-1).Draw(rt, label+"-conn")]
 			if pushes[c] >= 8 { // identify's push handler sits behind a per-/24 limiter (burst 10)
 				st.kind = stSleep
 				st.d = time.Millisecond
@@ -261,7 +293,15 @@ func drawScenario(rt *rapid.T) *scenario {
 			st.conn = c
 			status[c] = 2
 			armed = true
+			armedConn = c
 			st.resetStreams = rapid.Bool().Draw(rt, label+"-resetStreams")
+			st.point = []int{ptConnectedAdd, ptConnectedness, ptHostCall, ptConnectedness, ptHostCall, ptConnectedAdd, ptConnectedness, ptHostCall}[rapid.IntRange(0, 7).Draw(rt, label+"-point")]
+			switch st.point {
+			case ptConnectedness:
+				st.k = []int{1, 1, 1, 2, 3}[rapid.IntRange(0, 4).Draw(rt, label+"-kth")]
+			case ptHostCall:
+				st.k = rapid.IntRange(1, maxHostCallK).Draw(rt, label+"-kth")
+			}
 		}
 		sc.steps = append(sc.steps, st)
 	}
@@ -276,8 +316,10 @@ func (sc *scenario) fingerprint() string {
 		switch st.kind {
 		case stOpen:
 			fmt.Fprintf(&b, "%d/%v/%v/%d/%v", st.remoteClass, st.limited, st.lateConnected, st.newStream, st.nsDelay)
-		case stClose, stArmClose:
+		case stClose:
 			fmt.Fprintf(&b, "%v/%v", st.notifyDelay, st.resetStreams)
+		case stArmClose:
+			fmt.Fprintf(&b, "%v/%d/%d", st.resetStreams, st.point, st.k)
 		case stSleep:
 			fmt.Fprintf(&b, "%v", st.d)
 		}
@@ -297,8 +339,10 @@ func (sc *scenario) describe() map[string]any {
 		switch st.kind {
 		case stOpen:
 			s += fmt.Sprintf(" remote=%s limited=%v lateConnected=%v newStream=%d/%v", remoteClassNames[st.remoteClass], st.limited, st.lateConnected, st.newStream, st.nsDelay)
-		case stClose, stArmClose:
+		case stClose:
 			s += fmt.Sprintf(" notifyDelay=%v resetStreams=%v", st.notifyDelay, st.resetStreams)
+		case stArmClose:
+			s += fmt.Sprintf(" resetStreams=%v point=%s k=%d", st.resetStreams, pointNames[st.point], st.k)
 		case stSleep:
 			s += fmt.Sprintf(" d=%v", st.d)
 		}
@@ -363,8 +407,12 @@ type runner struct {
 	protos      map[string]struct{}
 	usableRec   map[string]struct{}
 	quietFrom   time.Duration // no harness-driven activity after this instant (as scheduled so far)
-	armedConn   *connState    // connection that closes inside the next connected address update
+	armedConn   *connState    // connection that closes at the armed point
 	firedAt     time.Duration // when that happened (<0: not yet); guarded by emu
+	// coverage facts about the armed close; guarded by emu
+	firedCall           string // the host call after (inside) which it fired
+	firedInNotification bool   // it fired inside a Disconnected notification of another connection
+	firedHandled        bool   // its own Disconnected notification was handled before the caller went on
 	pendingNote int           // Disconnected notifications not delivered yet
 	waits       []waitRec
 	before      map[peer.ID]string
@@ -570,6 +618,12 @@ func (r *runner) doOpen(st *step) {
 
 func (r *runner) doPush(st *step) {
 	cs := r.conns[st.conn]
+	if cs.fc.IsClosed() {
+		// only possible on the armed connection, whose close has fired meanwhile: a closed
+		// connection carries no new streams
+		r.label("push-skipped:armed-conn-already-closed")
+		return
+	}
 	now := r.now()
 	h := r.h.handler(identify.IDPush)
 	if h == nil {
@@ -646,16 +700,23 @@ func (r *runner) lastZero() time.Duration {
 }
 
 // doArmClose makes the given connection close (Disconnected delivered at once, from
-// another goroutine) at the moment identify, having found the peer connected, is about
-// to store addresses with the connected lifetime. The interleaving is legal: a
-// connection may die at any time and the peerstore may be slow.
+// another goroutine, as the swarm does) at a generated point of what identify does next
+// with its host: inside the next address update made with the connected lifetime, right
+// after the k-th Connectedness answer about p, or right after the k-th call of any kind
+// about p. Every such interleaving is legal: a connection may die at any time, the
+// swarm's answer may be stale the moment it is given, and the peerstore may be slow.
+// The caller is then held until the notification has been handled completely, or until
+// it is clear that it cannot be (it waits for a lock the caller holds).
 func (r *runner) doArmClose(st *step) {
 	cs := r.conns[st.conn]
 	r.armedConn = cs
 	reset := st.resetStreams
-	r.ps.arm(func() {
+	point := st.point
+	fire := func(call string) {
 		r.emu.Lock()
 		r.firedAt = time.Since(r.t0)
+		r.firedCall = call
+		r.firedInNotification = calledFrom("notifyDisconnected")
 		r.emu.Unlock()
 		done := make(chan struct{})
 		go func() {
@@ -663,16 +724,50 @@ func (r *runner) doArmClose(st *step) {
 			r.h.net.shut(cs.fc, reset)
 			r.h.net.notifyDisconnected(cs.fc)
 		}()
-		// let the notification run until it finishes or blocks behind identify's own lock
-		for i := 0; i < 3000; i++ {
+		// Let the notification run until it finishes or blocks behind one of identify's own
+		// locks. A goroutine waiting for a sync.Mutex is not durably blocked, so virtual time
+		// cannot pass here (a timer would freeze the bubble); the wait is bounded by a number
+		// of scheduler yields instead. Both outcomes are legal schedules.
+		for i := 0; i < armSpin; i++ {
 			select {
 			case <-done:
+				r.emu.Lock()
+				r.firedHandled = true
+				r.emu.Unlock()
 				return
 			default:
 				runtime.Gosched()
 			}
 		}
-	})
+	}
+	switch point {
+	case ptConnectedAdd:
+		r.ps.arm(func() { fire("AddAddrs(connected lifetime)") })
+	case ptConnectedness:
+		r.h.calls.arm(r.w.p.ID, pcConnectedness, st.k, fire)
+	case ptHostCall:
+		r.h.calls.arm(r.w.p.ID, pcAnyCall, st.k, fire)
+	}
+}
+
+const armSpin = 3000
+
+// calledFrom reports whether a function whose name ends in fn is on the stack of the
+// calling goroutine (used for coverage labels only: did an armed close fire inside a
+// Disconnected notification the harness was delivering, or inside message handling).
+func calledFrom(fn string) bool {
+	pcs := make([]uintptr, 64)
+	n := runtime.Callers(2, pcs)
+	frames := runtime.CallersFrames(pcs[:n])
+	for {
+		f, more := frames.Next()
+		if strings.HasSuffix(f.Function, "."+fn) {
+			return true
+		}
+		if !more {
+			return false
+		}
+	}
 }
 
 // reconcile brings the model up to date with a close that happened inside a consumption.
@@ -690,6 +785,32 @@ func (r *runner) reconcile() {
 	r.armedConn = nil
 	r.raced = true
 	r.label("closed-inside-consumption")
+	r.emu.Lock()
+	call, inNote, handled := r.firedCall, r.firedInNotification, r.firedHandled
+	r.emu.Unlock()
+	r.label("armed-close-fired-after:" + call)
+	if inNote {
+		r.label("armed-close-fired-in:disconnected-notification")
+	} else {
+		r.label("armed-close-fired-in:message-handling")
+	}
+	last := r.openCount() == 0
+	if last {
+		r.label("armed-close:of-last-connection")
+	}
+	if handled {
+		r.label("armed-close:disconnect-handled-before-caller-went-on")
+	} else {
+		r.label("armed-close:disconnect-held-back-by-caller")
+	}
+	if last && !inNote && call == "Connectedness" {
+		// the class "the last connection went away between identify's connectedness check
+		// and what it does with the answer"
+		r.label("armed-close:last-connection-right-after-connectedness-answer-in-message-handling")
+		if handled {
+			r.label("armed-close:last-connection-right-after-connectedness-answer-in-message-handling+disconnect-handled-first")
+		}
+	}
 }
 
 func (r *runner) snapshotEvents() []evRec {
@@ -1020,6 +1141,7 @@ func (r *runner) run() {
 	time.Sleep(eps)
 	synctest.Wait()
 	r.ps.arm(nil)
+	r.h.calls.disarm()
 	synctest.Wait()
 	r.reconcile()
 	r.armedConn = nil
@@ -1156,6 +1278,9 @@ func TestIdentifyAttribution(t *testing.T) {
 		seen := map[string]bool{}
 		for _, st := range sc.steps {
 			labels = append(labels, "step:"+stepNames[st.kind])
+			if st.kind == stArmClose {
+				labels = append(labels, "armed-point:"+pointNames[st.point])
+			}
 			if st.dl != nil {
 				for _, l := range st.dl.msg.labels {
 					if !seen[l] {
